@@ -1,14 +1,13 @@
-"""Per-property configuration for bin/check."""
+"""Per-property configuration for bin/check: one JSON file per property in checks/props.d/."""
+import json, os
 COMMON_TRUST = [
     "correspondence harness (Rust, /verif/harness) and line-protocol diff — checked by differential testing, not proved",
     "Rust integer semantics, ruint::U256 widening — modelled as exact Nat/Int arithmetic with fit tests",
 ]
-
-PROPS = {
-    "C01": dict(
-        lean="Gmx.Props.C01",
-        harness=[dict(pkg="h_model", bin="c01", quick_n=40000, thorough_n=3200000)],
-        trusted=COMMON_TRUST + ["non-integer exponents (rust_decimal::powd) are not modelled (outside C01's integer-exponent pow)"],
-        assumptions=["the Lean model Gmx.Model.Num is a hand transcription of crates/model/src/{num,utils,fixed}.rs, tied by the correspondence run"],
-    ),
-}
+PROPS = {}
+_d = os.path.join(os.path.dirname(os.path.abspath(__file__)), "props.d")
+for _f in sorted(os.listdir(_d)):
+    if _f.endswith(".json"):
+        _c = json.load(open(os.path.join(_d, _f)))
+        _c["trusted"] = COMMON_TRUST + _c.get("trusted", [])
+        PROPS[_f[:-5]] = _c
